@@ -9,6 +9,9 @@ import DimodProofs.JsonContracts
 import DimodProofs.HeaderContracts
 import DimodProofs.ZipEnd
 import DimodProofs.CqmDirs
+import DimodProofs.CqmClosed
+import DimodProofs.DqmClosed
+import DimodProofs.CqmDomain
 
 /-! # C09 — binary model files load back as the identical model
 
@@ -519,5 +522,194 @@ example : ExprWF (J := Nat)
 /-- the two archive contracts are satisfiable (an "archive" that is its own byte string) -/
 example (body : Bytes) : ContainerContract (fun b => if b = body then some b else none) body body :=
   ⟨by simp, fun j hj => by simp [take_ne_of_lt hj]⟩
+
+/-! ## round 7: the ZIP container at byte level; the CQM file closed end to end -/
+
+/-- **the modelled `zipfile` reader reads back what the modelled `zipfile` writer appended** to a file of
+    `pre.length` bytes (for dimod: the header): local file headers, central directory and end record as
+    `ZipFile(file, mode='a')` lays them out; `_RealGetContents` walks the directory, `ZipFile.open` checks each
+    local header against it and the CRC-32 of what it read.  `ZIP_STORED` members need nothing else;
+    `ZIP_DEFLATED` members only the codec contract inside `ZEntry.OK` (`inflate stored = some content`).
+    This is the equation `cqm_file_roundtrip_zip` assumed of `readDir`. -/
+theorem zip_reader_reads_writer (crc32 : Bytes → Nat) (inflate : Bytes → Option Bytes) (pre : Bytes) (zs : List ZEntry)
+    (hz : ∀ z ∈ zs, z.OK crc32 inflate) (hcount : zs.length < 256 ^ 2)
+    (hsize : pre.length + (zipLocals zs).length + (zipCD pre.length zs).length < 4294967295) :
+    readDirBytes crc32 inflate
+      ⟨(pre ++ (zipLocals zs ++ zipCD pre.length zs)).length,
+        eocdRecord zs.length (zipCD pre.length zs).length (pre.length + (zipLocals zs).length)⟩
+      ((pre ++ (zipLocals zs ++ zipCD pre.length zs)) ++
+        eocdRecord zs.length (zipCD pre.length zs).length (pre.length + (zipLocals zs).length)) =
+      some (zs.map fun z => (z.name, z.content)) :=
+  readDirBytes_zipBytes crc32 inflate pre zs hz hcount hsize
+
+/-- … and the whole archive opens: `_EndRecData` finds the record the writer put at the end, `_RealGetContents`
+    accepts it (`concat = 0`), every member is read back. -/
+theorem zip_open_reads_writer (crc32 : Bytes → Nat) (inflate : Bytes → Option Bytes) (pre : Bytes) (zs : List ZEntry)
+    (hz : ∀ z ∈ zs, z.OK crc32 inflate) (hcount : zs.length < 256 ^ 2)
+    (hsize : pre.length + (zipLocals zs).length + (zipCD pre.length zs).length < 4294967295) :
+    zipOpen (readDirBytes crc32 inflate) (pre ++ zipBytes pre.length zs) = some (zs.map fun z => (z.name, z.content)) := by
+  have h256 : (256 : Nat) ^ 4 = 4294967296 := by decide
+  obtain ⟨a, b, c⟩ := eocdRecord_shape zs.length (zipCD pre.length zs).length (pre.length + (zipLocals zs).length)
+  obtain ⟨d, _, _⟩ := eocdRecord_fields zs.length (zipCD pre.length zs).length (pre.length + (zipLocals zs).length)
+    (pre ++ (zipLocals zs ++ zipCD pre.length zs)).length (by omega) (by omega) hcount
+  have hfile : pre ++ zipBytes pre.length zs = (pre ++ (zipLocals zs ++ zipCD pre.length zs)) ++
+      eocdRecord zs.length (zipCD pre.length zs).length (pre.length + (zipLocals zs).length) := by
+    simp [zipBytes, List.append_assoc]
+  rw [hfile]
+  exact zipOpen_full _ _ _ _ a b c (by rw [d]; simp only [List.length_append]; omega) (readDirBytes_zipBytes crc32 inflate pre zs hz hcount hsize)
+
+/-- **CQM files, closed: `load (dump cqm) = some cqm`.**  For every CQM in the format's domain (`CqmSrc.InDomain`:
+    sizes agree and fit their length fields, float64 right-hand sides and weights, float labels in `repr` form,
+    pairwise different constraint directory names, header dictionaries below 4 GiB) and every choice of what the
+    reader ignores (`μ`: time stamps, versions, attributes, zip64-style local size fields and extra fields):
+    the bytes `ConstrainedQuadraticModel.to_file(compress=…)` writes — header dictionary by the modelled
+    `json.dumps`, members by the member models, local headers / central directory / end record by the byte-level
+    ZIP writer — load back through the whole modelled `from_file` (`read_header`, `_EndRecData` on the whole file,
+    directory walk, per-member local header and CRC-32 check, `cqmDecodeChecked` with the header consistency
+    check, `json.loads` + `deserialize_variable` on every directory name and on `variable_labels.json`) to
+    exactly the CQM: variable info, variable labels, objective, and every constraint's label, left-hand side,
+    right-hand side, sense, discrete mark, weight and penalty, in order.
+    No parse function, `okLabel` or directory reader is a parameter.  Left opaque: `crc32` (checked: the reader
+    compares), and for `compress=True` the codec (`hcodec`: `inflate (deflate b) = some b`). -/
+theorem cqm_file_roundtrip_closed (crc32 : Bytes → Nat) (inflate : Bytes → Option Bytes) (deflate : Option (Bytes → Bytes))
+    (μ : Nat → ZMeta) (s : CqmSrc) (hd : s.InDomain)
+    (hcrc : ∀ b, crc32 b < 256 ^ 4) (hcodec : ∀ d, deflate = some d → ∀ b, inflate (d b) = some b) (hμ : ∀ i, (μ i).OK)
+    (hfit : ∀ m ∈ cqmMembers 4 s.content, MemberFits deflate m) (hcount : (cqmMembers 4 s.content).length < 256 ^ 2)
+    (hsize : (dumpCqm crc32 deflate μ s).length < 4294967295) :
+    loadCqmSrc crc32 inflate (dumpCqm crc32 deflate μ s) = some s := by
+  have h256 : (256 : Nat) ^ 4 = 4294967296 := by decide
+  have hzs := mkEntries_ok crc32 inflate deflate μ hcrc hcodec hμ (cqmMembers 4 s.content) 0 hfit
+  have hlenz := mkEntries_length crc32 deflate μ (cqmMembers 4 s.content) 0
+  generalize hzdef : mkEntries crc32 deflate μ 0 (cqmMembers 4 s.content) = zs at hzs hlenz
+  have hdump : dumpCqm crc32 deflate μ s = cqmFileHeader s ++ zipBytes (cqmFileHeader s).length zs := by rw [dumpCqm, hzdef]
+  rw [hdump] at hsize ⊢
+  have hsz : (cqmFileHeader s).length + (zipLocals zs).length + (zipCD (cqmFileHeader s).length zs).length < 4294967295 := by
+    simp only [zipBytes, List.length_append] at hsize; omega
+  obtain ⟨a, b, c⟩ := eocdRecord_shape zs.length (zipCD (cqmFileHeader s).length zs).length ((cqmFileHeader s).length + (zipLocals zs).length)
+  obtain ⟨d, _, _⟩ := eocdRecord_fields zs.length (zipCD (cqmFileHeader s).length zs).length ((cqmFileHeader s).length + (zipLocals zs).length)
+    (cqmFileHeader s ++ (zipLocals zs ++ zipCD (cqmFileHeader s).length zs)).length (by omega) (by omega) (by omega)
+  have hread : readDirChars crc32 inflate
+      ⟨(cqmFileHeader s ++ (zipLocals zs ++ zipCD (cqmFileHeader s).length zs)).length,
+        eocdRecord zs.length (zipCD (cqmFileHeader s).length zs).length ((cqmFileHeader s).length + (zipLocals zs).length)⟩
+      ((cqmFileHeader s ++ (zipLocals zs ++ zipCD (cqmFileHeader s).length zs)) ++
+        eocdRecord zs.length (zipCD (cqmFileHeader s).length zs).length ((cqmFileHeader s).length + (zipLocals zs).length)) =
+      some (cqmMembers 4 s.content) := by
+    unfold readDirChars
+    rw [readDirBytes_zipBytes crc32 inflate (cqmFileHeader s) zs hzs (by omega) hsz, ← hzdef, mkEntries_members]
+    simp only [Option.map_some]
+    rw [asciiRoundtrip_members _ (cqmMembers_ascii 4 s.content fun c hc => by
+      obtain ⟨c0, hc0, rfl⟩ := List.mem_map.mp hc
+      exact labelText_ascii c0.label (hd.cons c0 hc0).2.2.2.2)]
+  have hload := cqm_file_roundtrip_zip (readDirChars crc32 inflate) parseExprHeader (fun d => (loadsJ d).isSome) 4 8 s.content
+    (zipLocals zs ++ zipCD (cqmFileHeader s).length zs)
+    (eocdRecord zs.length (zipCD (cqmFileHeader s).length zs).length ((cqmFileHeader s).length + (zipLocals zs).length))
+    hd.cqmWF hd.hdrLen a b c
+    (by show (EndRec.mk (cqmFileHeader s ++ (zipLocals zs ++ zipCD (cqmFileHeader s).length zs)).length _).sizeCd ≤
+          (cqmFileHeader s ++ (zipLocals zs ++ zipCD (cqmFileHeader s).length zs)).length
+        rw [d]; simp only [List.length_append]; omega) hread
+  have hfile : cqmFileHeader s ++ zipBytes (cqmFileHeader s).length zs =
+      makeHeader cqmPrefix 2 0 (cqmHeaderText (cqmCounts s.content.erase)) ++ ((zipLocals zs ++ zipCD (cqmFileHeader s).length zs) ++
+        eocdRecord zs.length (zipCD (cqmFileHeader s).length zs).length ((cqmFileHeader s).length + (zipLocals zs).length)) := by
+    simp [zipBytes, cqmFileHeader, List.append_assoc]
+  unfold loadCqmSrc loadCqm
+  rw [hfile, hload]
+  have hc : srcConstraints s.content.erase.constraints = some s.constraints :=
+    srcConstraints_content s.constraints (fun c hc => (hd.cons c hc).2.2.2.2)
+  have hl : srcLabels s.content.erase.labelsText = some s.labels := srcLabels_content s.labels hd.labelsOK
+  simp only [hc, hl]
+  rfl
+
+/-- **the constants of the model are the constants of the source** (regenerated into `Generated/FileConsts.lean` by
+    `harness/translators/fileconsts.py` on every run: `ast` over `ConstrainedQuadraticModel.to_file / from_file`,
+    `DiscreteQuadraticModel._to_file_numpy`, `make_header`, `Section.dumps`, the loaders' version tests; the
+    `Vartype` enum of `vartypes.h`; the record signatures and sizes of the `zipfile` module in use): 64-byte
+    alignment of headers and sections; the archive member names in the order `to_file` writes them, which of them
+    are written with `force_zip64`, the names `from_file` asks for; the npz array names in `np.savez` order; the
+    expression type names; `ZIP_STORED` / `ZIP_DEFLATED`; the three ZIP record signatures and fixed sizes; the
+    vartype code of `REAL`.  A change of any of them in the source breaks this theorem (and `lake build`). -/
+theorem format_constants_from_source (c : DqmContent) :
+    Gen.headerAlign = 64 ∧ Gen.sectionAlign = 64 ∧
+    Gen.cqmMemberNames = [nmVarinfo, nmLabels, nmObjective, constraintPath ['{', '}'] fLhs, constraintPath ['{', '}'] fRhs,
+      constraintPath ['{', '}'] fSense, constraintPath ['{', '}'] fDiscrete, constraintPath ['{', '}'] fWeight,
+      constraintPath ['{', '}'] fPenalty] ∧
+    Gen.cqmZip64Members = [nmObjective, constraintPath ['{', '}'] fLhs] ∧
+    (∀ n ∈ Gen.cqmReadNames, n ∈ Gen.cqmMemberNames) ∧
+    (dqmMembers c).map (·.name) = Gen.npzArrayNames ∧
+    Gen.exprTypeObjective = tObjective.toList ∧ Gen.exprTypeConstraint = tConstraint.toList ∧
+    Gen.zipStoredMethod = 0 ∧ Gen.cqmCompressMethod = 8 ∧
+    Gen.eocdSignature = sigEOCD ∧ Gen.eocdSize = 22 ∧ Gen.localHeaderSignature = sigLocal ∧ Gen.localHeaderSize = 30 ∧
+    Gen.centralDirSignature = sigCD ∧ Gen.centralDirSize = 46 ∧
+    Gen.vartypeNames.length = 4 ∧ Gen.vartypeNames[vtREAL.toNat]? = some ['R', 'E', 'A', 'L'] ∧
+    Gen.qmVersion = [1, 0] ∧ Gen.dqmVersion = [1, 1] ∧ Gen.bqmVersionLimit = 3 ∧ Gen.dqmVersionLimit = 2 := by
+  refine ⟨by decide, by decide, by decide, by decide, by decide, by simp [dqmMembers, mStarts, mLinear, mRow, mCol, mQuad, mOffset]; decide, by decide, by decide, by decide, by decide, by decide,
+    by decide, by decide, by decide, by decide, by decide, by decide, by decide, by decide, by decide, by decide, by decide⟩
+
+/-- **`.npy` members and the `.npz` archive**: `format.read_array` (magic, version, header length, the dictionary
+    `{'descr': …, 'fortran_order': False, 'shape': …, }` with its padding to a multiple of 64, exactly
+    `count * itemsize` data bytes) reads back every array `np.savez` wrote, whatever follows it; and the
+    archive's members `<name>.npy` come back as the arrays, in order. -/
+theorem npy_roundtrip (m : NpyMember) (hm : m.OK) (rest : Bytes) (ms : List NpyMember) (hms : ∀ x ∈ ms, x.OK) :
+    parseNpy m.name (npyFile m ++ rest) = some m ∧ (npyHeader m.descr m.shape).length % 64 = 0 ∧
+    npzMembersOf (npzArchive ms) = some ms := by
+  refine ⟨parseNpy_npyFile m hm rest, ?_, npzMembersOf_archive ms hms⟩
+  simp only [npyHeader, List.length_append, toLE_length, spaces_length, List.length_cons, List.length_nil]
+  have : npyMagic.length = 6 := by decide
+  omega
+
+/-- **DQM files, closed**: for every DQM content in the format's domain (`DqmWF`, every array fits its `.npy` header:
+    `NpyMember.OK`), every label list (floats in `repr` form) and both values of `ignore_labels` / `compress`:
+    the bytes `DiscreteQuadraticModel.to_file` writes — header dictionary, `BIAS` frame, `.npy` headers and data,
+    ZIP local headers / central directory / end record, `VARS` — load back through the whole modelled `from_file`
+    (the loader that hands `np.load` the `BIAS` section) to the header dictionary, the DQM content and the labels.
+    Nothing is a parameter except `crc32` (checked) and, for `compress=True`, the codec contract. -/
+theorem dqm_file_roundtrip_closed (crc32 : Bytes → Nat) (inflate : Bytes → Option Bytes) (deflate : Option (Bytes → Bytes))
+    (μ : Nat → ZMeta) (ignore : Bool) (c : DqmContent) (labels : List FLabel)
+    (wf : DqmWF c) (hnpy : ∀ m ∈ dqmMembers c, m.OK) (hl : JOKs (serializeLabels labels)) (hn : labels.length = c.caseStarts.length)
+    (hcrc : ∀ b, crc32 b < 256 ^ 4) (hcodec : ∀ d, deflate = some d → ∀ b, inflate (d b) = some b) (hμ : ∀ i, (μ i).OK)
+    (hfit : ∀ m ∈ npzArchive (dqmMembers c), MemberFits deflate m)
+    (hsize : dqmBlobBase ignore c labels + (npzBytes crc32 deflate μ (dqmBlobBase ignore c labels) (dqmMembers c)).length < 4294967295)
+    (hlen : (dumpsDict (dqmCountsDict (dqmCounts c) (dqmVariablesFlag ignore labels))).length + 65 < 2 ^ 32)
+    (hvlen : (dumpsJ (.arr (serializeLabels labels))).length + 64 < 256 ^ nlb4) :
+    loadDqm crc32 inflate (dumpDqm crc32 deflate μ ignore c labels) =
+      .ok (dqmCountsDict (dqmCounts c) (dqmVariablesFlag ignore labels), c,
+           if dqmVariablesFlag ignore labels then some (serializeLabels labels) else none) := by
+  obtain ⟨x, e, hxe, h22, hsig, hz, hdir, hmagic, _, hread⟩ :=
+    readDqmBlob_npz crc32 inflate deflate μ (dqmBlobBase ignore c labels) c wf hnpy hcrc hcodec hμ hfit hsize
+  unfold loadDqm dumpDqm
+  rw [hxe]
+  have h256 : (256 : Nat) ^ 4 = 4294967296 := by decide
+  exact dqm_blob_loader_roundtrip parseDqmHeader parseVarsReal (readDqmBlob crc32 inflate) (fun d => d.caseStarts.length) _ x e
+    (varsTextOf labels) _ _ c (serializeLabels labels) (dqm_header_ok _ _ hlen) (by rw [← hxe]; omega) hmagic h22 hsig hz hdir hread
+    (fun _ => ⟨VarsOK_real _ hl hvlen, by rw [serializeLabels_length, hn]⟩)
+
+/-- **the domain of `cqm_file_roundtrip_closed` is decidable** (for labels without floats): the Boolean check
+    `CqmSrc.domainB` evaluates every conjunct of `CqmSrc.InDomain` and is sound for it. -/
+theorem cqm_domain_check_sound (s : CqmSrc) (h : s.domainB = true) : s.InDomain := s.domainB_sound h
+
+/-- non-vacuity of `cqm_file_roundtrip_closed`: a concrete CQM (one binary variable, objective `x + 2`, a hard constraint
+    labelled `"c0"` and a soft, discrete-marked one labelled `("a", 1)`) passes the decidable domain check, its members
+    fit the directory fields, the ignored header fields of `zipfile` are admissible, and the file is below 4 GiB -/
+example : exCqm.domainB = true ∧ (∀ i, (exMeta i).OK) ∧
+    (∀ m ∈ cqmMembers 4 exCqm.content, m.1.length < 256 ^ 2 ∧ m.2.length < 256 ^ 4 - 1) ∧
+    (cqmMembers 4 exCqm.content).length = 11 ∧ (dumpCqm exCrc none exMeta exCqm).length < 4294967295 ∧ (∀ b, exCrc b < 256 ^ 4) := by
+  refine ⟨by decide +kernel, exMeta_ok, by decide +kernel, by decide +kernel, by decide +kernel, fun b => ?_⟩
+  unfold exCrc; omega
+
+/-- … hence the closed theorem applies to it: the file loads back to the model -/
+example : loadCqmSrc exCrc (fun _ => none) (dumpCqm exCrc none exMeta exCqm) = some exCqm :=
+  cqm_file_roundtrip_closed exCrc (fun _ => none) none exMeta exCqm (exCqm.domainB_sound (by decide +kernel))
+    (fun b => by unfold exCrc; omega) (fun d hd => by simp at hd) exMeta_ok
+    (fun m hm => memberFits_none m ((by decide +kernel : ∀ m ∈ cqmMembers 4 exCqm.content, m.1.length < 256 ^ 2 ∧ m.2.length < 256 ^ 4 - 1) m hm).1
+      ((by decide +kernel : ∀ m ∈ cqmMembers 4 exCqm.content, m.1.length < 256 ^ 2 ∧ m.2.length < 256 ^ 4 - 1) m hm).2)
+    (by decide +kernel) (by decide +kernel)
+
+/-- non-vacuity of `dqm_file_roundtrip_closed` / `npy_roundtrip`: the six arrays of a concrete DQM (one variable, two
+    cases) satisfy the `.npy` side conditions (checked by the Boolean `NpyMember.okB`), and its content is well formed -/
+example : (∀ m ∈ dqmMembers exDqm, m.okB = true) ∧ (∀ m ∈ dqmMembers exDqm, m.OK) := by
+  have h : ∀ m ∈ dqmMembers exDqm, m.okB = true := by decide +kernel
+  exact ⟨h, fun m hm => m.okB_sound (h m hm)⟩
+
+example : DqmWF exDqm := by
+  constructor <;> simp [exDqm, exF8, LowerOK, startsBad] <;> decide
 
 end C09
